@@ -48,15 +48,19 @@ type Op struct {
 	Doc      string `json:"doc,omitempty"`
 	Continue bool   `json:"continue,omitempty"`
 	Pattern  string `json:"pattern,omitempty"`
-	// Fresh makes the pattern one the process has never compiled: an alternative that matches nothing and carries
-	// a process-wide counter is appended at execution time, so its first compilation happens while other
-	// goroutines look patterns up. The expected answer then comes from Go's regexp, not from an earlier call.
+	// Fresh makes the pattern one the process has never compiled: an empty capture group named after a process-wide
+	// counter is put in front at execution time, so its first compilation happens while other goroutines look
+	// patterns up. The expected answer then comes from Go's regexp, not from an earlier call.
 	Fresh bool `json:"fresh,omitempty"`
 }
 
 var freshCounter uint64
 
-const matchesNothing = `|[^\s\S]`
+// freshPattern makes an expression the process has never seen out of a pattern, without changing what it matches
+// or whether it compiles: an empty capture group whose name carries a process-wide counter is put in front.
+func freshPattern(pattern string) string {
+	return "(?P<n" + strconv.FormatUint(atomic.AddUint64(&freshCounter, 1), 10) + ">)" + pattern
+}
 
 type Case struct {
 	Schemas    []string `json:"schemas"`
@@ -155,7 +159,7 @@ func exec(e *env, op Op) obs.Outcome {
 		return out
 	case "pattern":
 		if op.Fresh {
-			pattern := op.Pattern + matchesNothing + strconv.FormatUint(atomic.AddUint64(&freshCounter, 1), 10)
+			pattern := freshPattern(op.Pattern)
 			if e.sequential {
 				// the expected answer: Go's regexp on the same expression
 				re, err := regexp.Compile(pattern)
